@@ -14,6 +14,7 @@ partial def loop (hin : IO.FS.Stream) (hout : IO.FS.Stream) (tbl : Std.HashMap S
     match tbl.get? op with
     | some hnd => hout.putStrLn (hnd rest.toArray)
     | none => hout.putStrLn "bad-op"
+  hout.flush          -- one answer per request line, available at once (the harness keeps one driver process alive)
   loop hin hout tbl
 
 def main : IO Unit := do
